@@ -519,6 +519,14 @@ func (p *uPacketPacker) MarshalInitialPacketPayload(pl payload, v protocol.Versi
 		return frameBytes, nil
 	}
 
+	// [UQUIC] Every call from here on builds exactly one Initial datagram of the flight,
+	// whatever kind of FrameBuilder is in force, so the datagram index advances here and
+	// not only for a QUICFrameBuilderEx: InitialPackets[i] has to govern datagram i for a
+	// nil FrameBuilder, an empty QUICFrames and a plain QUICFrameBuilder too (it used to
+	// stay at 0 for those, so every datagram was cut and sized by InitialPackets[0]).
+	datagramIdx := p.initialDatagramIdx
+	p.initialDatagramIdx++
+
 	var originalFrameBytes []byte
 
 	for _, f := range pl.frames {
@@ -578,9 +586,7 @@ func (p *uPacketPacker) MarshalInitialPacketPayload(pl payload, v protocol.Versi
 	// [UQUIC] Use QUICFrameBuilderEx if available: supports N-datagram Initials via
 	// per-datagram index and base offset. Falls back to Build() for single-datagram specs.
 	if ext, ok := p.uSpec.InitialPacketSpec.FrameBuilder.(QUICFrameBuilderEx); ok {
-		result, err := ext.BuildForDatagram(p.initialDatagramIdx, cryptoData, baseOffset)
-		p.initialDatagramIdx++ // advance after building; each call corresponds to one datagram
-		return result, err
+		return ext.BuildForDatagram(datagramIdx, cryptoData, baseOffset)
 	}
 	return p.uSpec.InitialPacketSpec.FrameBuilder.Build(cryptoData)
 }
